@@ -94,7 +94,13 @@ func Edits(t *rapid.T, s string, max int, alphabet []string) (out string, n int)
 // uint16(r)) maps to the ASCII byte c: c+0x100..c+0x300 and c+0x10000*k.  Code
 // that classifies runes after such a conversion takes them for c.
 func AliasOf(t *rapid.T, c byte) string {
-	k := rapid.IntRange(0, 18).Draw(t, "alias")
+	k := rapid.IntRange(0, 26).Draw(t, "alias")
+	if k > 18 {
+		// Single-bit aliases of the byte itself (c^0x20 is the case bit; code
+		// that folds or masks before classifying takes 0x10..0x19 for digits,
+		// '@' for '`', high-bit bytes for ASCII ...).
+		return string([]byte{c ^ (1 << (k - 19))})
+	}
 	if k < 3 {
 		return string(rune(c) + 0x100*rune(k+1))
 	}
@@ -869,7 +875,36 @@ var hostsLine = rapid.Custom(func(t *rapid.T) string {
 		} else {
 			sb.WriteString(hostsWS.Draw(t, "ws"))
 		}
-		sb.WriteString(hostsName.Draw(t, "name"))
+		nm := hostsName.Draw(t, "name")
+		if rapid.IntRange(0, 11).Draw(t, "boundary") == 0 {
+			// A name at a length boundary (label 58..63, name 248..253 octets).
+			c := rapid.SampledFrom([]string{"s", "k", "a"}).Draw(t, "bc")
+			if rapid.Bool().Draw(t, "label") {
+				nm = strings.Repeat(c, rapid.IntRange(58, 63).Draw(t, "ll")) + ".example"
+			} else {
+				nm = strings.Repeat(strings.Repeat(c, 49)+".", 5)[:rapid.IntRange(244, 249).Draw(t, "nl")] + ".lan"
+			}
+		}
+		sb.WriteString(nm)
+		if rapid.IntRange(0, 7).Draw(t, "twin") == 0 && nm != "" {
+			// The same name again in another spelling: another case, a
+			// fold-equal look-alike (U+017F for s, U+212A for k) whose IDNA
+			// form is longer, one character more or less.
+			tw := nm
+			switch rapid.IntRange(0, 4).Draw(t, "twinkind") {
+			case 0:
+				tw = strings.ToUpper(nm)
+			case 1:
+				tw = strings.Replace(nm, "s", "\u017f", 1)
+			case 2:
+				tw = strings.Replace(nm, "k", "\u212a", 1)
+			case 3:
+				tw = nm + "x"
+			default:
+				tw = nm[:len(nm)-1]
+			}
+			sb.WriteString(" " + tw)
+		}
 	}
 	if rapid.IntRange(0, 2).Draw(t, "tailws") == 0 {
 		sb.WriteString(hostsWS.Draw(t, "tail"))
